@@ -1,14 +1,18 @@
 package checks
 
 import (
+	gocontext "context"
 	"encoding/json"
 	"errors"
 	"fmt"
 	"io"
 	"math/rand"
+	"net"
 	"net/http"
 	"net/url"
+	"os"
 	"strings"
+	"syscall"
 
 	"github.com/flamego/flamego"
 	"github.com/flamego/flamego/verifharness/core"
@@ -73,11 +77,11 @@ func init() {
 func genRecCase(rng *rand.Rand, env string) *recCase {
 	c := &recCase{Env: env, Pre: rng.Intn(3)}
 	for i := rng.Intn(4); i > 0; i-- {
-		c.Mid = append(c.Mid, []string{"plain", "next", "next", "write-next"}[rng.Intn(4)])
+		c.Mid = append(c.Mid, []string{"plain", "next", "next", "write-next", "deadline-next"}[rng.Intn(5)])
 	}
 	c.Where = []string{"route", "route", "action", "notfound", "group"}[rng.Intn(5)]
 	c.Phase = []string{"before", "before", "after-header", "after-body"}[rng.Intn(4)]
-	c.Kind = []string{"string", "error", "runtime", "struct", "int", "abort", "dep", "nilerr"}[rng.Intn(8)]
+	c.Kind = []string{"string", "error", "runtime", "struct", "int", "abort", "dep", "nilerr", "neterr-epipe", "neterr-reset"}[rng.Intn(10)]
 	if rng.Intn(6) == 0 {
 		// a buffering middleware in front of Recovery; nothing else writes, the panic comes before any write
 		c.Buffer = true
@@ -122,6 +126,10 @@ func (c *recCase) markerOf() string {
 		return "c15Missing"
 	case "nilerr":
 		return "<nil>"
+	case "neterr-epipe":
+		return "broken pipe"
+	case "neterr-reset":
+		return "connection reset by peer"
 	}
 	return c.Marker
 }
@@ -265,6 +273,9 @@ func judgeRec(w *core.W, c *recCase) {
 		if wrote && m == "plain" {
 			mid[i] = "next"
 		}
+		if m == "deadline-next" {
+			wrote = wrote || false
+		}
 		if m == "write-next" {
 			wrote = true
 		}
@@ -285,6 +296,13 @@ func judgeRec(w *core.W, c *recCase) {
 				ctx.Next()
 			case "write-next":
 				_, _ = ctx.ResponseWriter().Write([]byte(fmt.Sprintf("m%d;", i)))
+				ctx.Next()
+			case "deadline-next":
+				// the usual timeout middleware: the request carries a derived context that is cancelled when this
+				// handler is left - also when it is left by a panic. The client is still there and gets its 500.
+				ctx2, cancel2 := gocontext.WithCancel(ctx.Request().Context())
+				ctx.Request().Request = ctx.Request().WithContext(ctx2)
+				defer cancel2()
 				ctx.Next()
 			}
 		})
@@ -316,6 +334,10 @@ func judgeRec(w *core.W, c *recCase) {
 		case "nilerr":
 			var e *c15BadErr
 			panic(e)
+		case "neterr-epipe":
+			panic(&net.OpError{Op: "write", Net: "tcp", Err: os.NewSyscallError("write", syscall.EPIPE)})
+		case "neterr-reset":
+			panic(&net.OpError{Op: "read", Net: "tcp", Err: os.NewSyscallError("read", syscall.ECONNRESET)})
 		}
 	}
 	var panicH flamego.Handler = boom
@@ -386,6 +408,12 @@ func judgeRec(w *core.W, c *recCase) {
 		}
 	}
 	w.Count("kind:" + c.Kind)
+	for _, m := range c.Mid {
+		if m == "deadline-next" {
+			w.Count("request-context-cancelled-while-unwinding")
+			break
+		}
+	}
 	if c.Buffer {
 		w.Count("buffering-writer-in-front-of-recovery")
 	}
@@ -425,7 +453,7 @@ func runC15(r *core.Run) {
 	ws.Done()
 	ws.Merge()
 	flamego.SetEnv(orig)
-	for _, k := range []string{"environment-switched-after-assembly", "kind:string", "kind:error", "kind:runtime", "kind:struct", "kind:int", "kind:abort", "kind:dep", "kind:nilerr", "buffering-writer-in-front-of-recovery", "phase:before", "phase:after-header", "phase:after-body", "where:route", "where:group", "where:action", "where:notfound", "depth:flat", "depth:nested-next", "follow-up-requests"} {
+	for _, k := range []string{"environment-switched-after-assembly", "kind:string", "kind:error", "kind:runtime", "kind:struct", "kind:int", "kind:abort", "kind:dep", "kind:nilerr", "kind:neterr-epipe", "kind:neterr-reset", "request-context-cancelled-while-unwinding", "buffering-writer-in-front-of-recovery", "phase:before", "phase:after-header", "phase:after-body", "where:route", "where:group", "where:action", "where:notfound", "depth:flat", "depth:nested-next", "follow-up-requests"} {
 		r.GateCounter(k, 100)
 	}
 	r.Gate("distinct_nontrivial", r.NonTrivialCount(), 1000)
